@@ -7,29 +7,29 @@ Local Open Scope Z_scope.
 
 Record rcase := RC {
   r_n : nat; r_k : nat; r_fuel : nat; r_progs : list (list op); r_sched : list Z;
-  i_trace : list (Z * Z);            (* implementation: (tid, site) per step *)
+  i_trace : list Z;                  (* implementation: one code per step, tid * 32 + site *)
   i_results : list (list (Z * Z));   (* per thread, oldest first *)
   i_words : list Z;                  (* final lock words *)
   i_status : Z;                      (* 0 done 1 deadlock 2 budget *)
   i_conflicts : Z }.                 (* bad occupancy observations counted by the harness *)
 
 (* occupancy replayed from a trace alone: (writers inside, readers inside, conflicts) *)
-Definition occ_step (acc : Z * Z * Z) (e : Z * Z) : Z * Z * Z :=
+Definition occ_step (acc : Z * Z * Z) (e : Z) : Z * Z * Z :=
   let '(nw, nr, c) := acc in
-  let site := snd e in
+  let site := e mod 32 in
   if site =? s_enter_w then (nw + 1, nr, if (nw + 1 =? 1) && (nr =? 0) then c else c + 1)
   else if site =? s_enter_r then (nw, nr + 1, if nw =? 0 then c else c + 1)
   else if site =? s_exit_w then (nw - 1, nr, c)
   else if site =? s_exit_r then (nw, nr - 1, c)
   else acc.
-Definition conflicts_of (tr : list (Z * Z)) : Z := snd (fold_left occ_step tr (0, 0, 0)).
+Definition conflicts_of (tr : list Z) : Z := snd (fold_left occ_step tr (0, 0, 0)).
 
 Definition scripts_wf (strict : bool) (c : rcase) : bool :=
   forallb (fun p => wfb (r_n c) strict (S (length p)) MIdle p) (r_progs c).
 
 Definition agrees (c : rcase) : bool :=
   let '(s, tr, st) := run_rw (r_fuel c) (r_n c) (r_k c) (r_progs c) (r_sched c) in
-  list_eqb zpair_eqb tr (i_trace c) && (status_code st =? i_status c) && zlist_eqb (words s) (i_words c) &&
+  zlist_eqb (map (fun e => fst e * 32 + snd e) tr) (i_trace c) && (status_code st =? i_status c) && zlist_eqb (words s) (i_words c) &&
   list_eqb (list_eqb zpair_eqb) (map (fun th => rev (res th)) (threads s)) (i_results c) &&
   (conflicts_of (i_trace c) =? i_conflicts c).
 
